@@ -474,6 +474,29 @@ func verifLemmaMaxBodyTight(c *channelInstance, m *Message, chunkSize int, chunk
 //@   loop 0 invariant [C13:incomplete-messages-bounded] len(s.chunks) <= 1
 
 // ---------------------------------------------------------------------------
+// C30: the server opens channels only with security settings it enabled. serverEnabled(policy, mode)
+// stands for the server's configuration (the enabled policy/mode pairs); the OPN handler has no access
+// to such data and adopts whatever mode the client's request names: [C30:enabled-only] is a known
+// finding. What it does check, and what this contract protects: the protocol version and the empty
+// authentication token.
+// ---------------------------------------------------------------------------
+//@ ufunc serverEnabled(string, ua.MessageSecurityMode) bool
+
+//@ func (*SecureChannel).handleOpenSecureChannelRequest@policy
+//@   props C30
+//@   frame_only
+//@   use (*channelInstance).SetMaximumBodySize@frame
+//@   requires s != nil && s.cfg != nil && s.c != nil && s.openingInstance != nil && s.instances != nil
+//@   requires typeis(svc, *ua.OpenSecureChannelRequest) && dyn(svc, *ua.OpenSecureChannelRequest) != nil
+//@   let req = dyn(svc, *ua.OpenSecureChannelRequest)
+//@   assigns *
+//@   after "ua.NewExtensionObject(nil)" assigns nothing
+//@   after "s.sendResponseWithContext(ctx,instance,reqID,resp)" assigns allbut SecureChannel Config ua.OpenSecureChannelRequest ua.RequestHeader
+//@   ensures [C30:version-checked] req.ClientProtocolVersion != 0 ==> result != nil
+//@   ensures [C30:adopts-mode] result == nil ==> s.cfg.SecurityMode == req.SecurityMode
+//@   ensures [C30:enabled-only] result == nil ==> serverEnabled(s.cfg.SecurityPolicyURI, s.cfg.SecurityMode)
+
+// ---------------------------------------------------------------------------
 // C12: reassembly of chunk streams
 // ---------------------------------------------------------------------------
 
